@@ -18,6 +18,7 @@ import (
 
 	"github.com/golang/protobuf/proto"
 	pb "github.com/marekgalovic/anndb/protobuf"
+	"github.com/marekgalovic/anndb/storage/raft"
 	uuid "github.com/satori/go.uuid"
 )
 
@@ -142,6 +143,118 @@ func (w *cworld) list(n *world.RNode) (string, string) {
 	return strings.Join(out, " ; "), ""
 }
 
+// cmodel is the boring reference catalogue: dataset number -> replica list of its only partition (absent = not in the map).
+type cmodel map[int][]uint64
+
+func modelOf(log []centry) cmodel {
+	m := cmodel{}
+	for _, e := range log {
+		cur, exists := m[e.DS]
+		switch e.Kind {
+		case "create":
+			if !exists {
+				if e.Two {
+					m[e.DS] = []uint64{1, 2}
+				} else {
+					m[e.DS] = []uint64{1}
+				}
+			}
+		case "delete":
+			delete(m, e.DS)
+		case "add":
+			on := false
+			for _, id := range cur {
+				on = on || id == e.Node
+			}
+			if exists && !on {
+				m[e.DS] = append(append([]uint64{}, cur...), e.Node)
+			}
+		case "rem":
+			if exists {
+				out := []uint64{}
+				for _, id := range cur {
+					if id != e.Node {
+						out = append(out, id)
+					}
+				}
+				m[e.DS] = out
+			}
+		}
+	}
+	return m
+}
+
+func (m cmodel) listing() string {
+	var out []string
+	for ds, nodes := range m {
+		space := pb.Space_Euclidean
+		if ds%2 == 1 {
+			space = pb.Space_Cosine
+		}
+		out = append(out, canonDataset(&pb.Dataset{Id: cdsID(ds).Bytes(), Dimension: 2, Space: space, PartitionCount: 1, ReplicationFactor: 2,
+			Partitions: []*pb.Partition{{Id: cpartID(ds).Bytes(), NodeIds: nodes}}}))
+	}
+	sort.Strings(out)
+	return strings.Join(out, " ; ")
+}
+
+// serving is what the model expects node id to route by and to serve: for each dataset of the alphabet the replica
+// list its partition object carries, and whether the partition's raft group answers on the node's transport.
+func (m cmodel) serving(id uint64, dss []int) string {
+	var out []string
+	for _, ds := range dss {
+		nodes, exists := m[ds]
+		if !exists {
+			out = append(out, fmt.Sprintf("ds%d:absent,group=false", ds))
+			continue
+		}
+		on := false
+		for _, n := range nodes {
+			on = on || n == id
+		}
+		out = append(out, fmt.Sprintf("ds%d:%v,group=%v", ds, nodes, on))
+	}
+	return strings.Join(out, " ")
+}
+
+// serving observes the same on the real node: the partition object's own replica list (what requests are routed by)
+// and whether the node's raft transport finds the partition's group (what "serves" means on the wire).
+func (w *cworld) serving(n *world.RNode, dss []int) (string, string) {
+	var out []string
+	if e := w.run(n.ID, func() {
+		for _, ds := range dss {
+			_, err := n.Transport.Receive(context.Background(), &pb.RaftMessage{GroupId: cpartID(ds).Bytes(), Message: []byte{0xff}})
+			group := err != raft.GroupNotFoundError
+			d, err := n.DM.Get(cdsID(ds))
+			if err != nil {
+				out = append(out, fmt.Sprintf("ds%d:absent,group=%v", ds, group))
+				continue
+			}
+			out = append(out, fmt.Sprintf("ds%d:%v,group=%v", ds, append([]uint64{}, d.VerifPartition(0).NodeIds()...), group))
+		}
+	}); e != "" {
+		return "", e
+	}
+	return strings.Join(out, " "), ""
+}
+
+// againstModel compares node n with the reference catalogue of the log.
+func (w *cworld) againstModel(n *world.RNode, role string, log []centry, listed string) (string, string) {
+	m := modelOf(log)
+	if want := m.listing(); listed != want {
+		return "listing-differs-from-log:" + role, fmt.Sprintf("log %v: node %d (%s) lists {%s}, the log says {%s}", log, n.ID, role, listed, want)
+	}
+	dss := []int{0, 1}
+	got, e := w.serving(n, dss)
+	if e != "" {
+		return "catalogue-probe-fails", e
+	}
+	if want := m.serving(n.ID, dss); got != want {
+		return "routing-or-serving-differs-from-log:" + role, fmt.Sprintf("log %v: node %d (%s) routes/serves {%s}, the log says {%s}", log, n.ID, role, got, want)
+	}
+	return "", ""
+}
+
 // catalogueLog checks one log; returns key, desc.
 func catalogueLog(log []centry) (string, string) {
 	w := newCWorld()
@@ -186,6 +299,12 @@ func catalogueLog(log []centry) (string, string) {
 	}
 	if la != lb {
 		return "replicas-list-different-catalogues", fmt.Sprintf("log %v: node 1 lists {%s}, node 2 lists {%s}", log, la, lb)
+	}
+	if k, d := w.againstModel(a, "replay", log, la); k != "" {
+		return k, d
+	}
+	if k, d := w.againstModel(b, "replay", log, lb); k != "" {
+		return k, d
 	}
 	return "", ""
 }
@@ -270,6 +389,11 @@ func catalogueCut(log []centry, cut int, used bool) (string, string) {
 	}
 	if la != lc {
 		return "snapshot-plus-suffix-differs-from-replay:" + role, fmt.Sprintf("log %v, snapshot cut at %d, %s restoring node: replay gives {%s}, snapshot+suffix gives {%s}", log, cut, role, la, lc)
+	}
+	if !used {
+		if k, d := w.againstModel(c, "snapshot+suffix", log, lc); k != "" {
+			return k, fmt.Sprintf("snapshot cut at %d: %s", cut, d)
+		}
 	}
 	return "", ""
 }
